@@ -130,6 +130,7 @@ void install_handlers();
 
 // allocation ledger / fault injection (wrap.cpp)
 extern "C" {
+    extern int vf_malloc_fill;          // byte that fresh malloc blocks are filled with (-1: allocator default)
     extern int vf_ledger_on;            // record allocations made while set
     extern long vf_alloc_count;         // allocations seen since last arm
     extern long vf_fail_at;             // fail the k-th allocation from now (1-based); 0 = off
